@@ -140,6 +140,15 @@ def run(ctx):
         "golang.org/x/tools/go/ssa and the instruction-by-instruction translation in gossa/main.go")
     from vlib import gentie
     gentie.run(ctx, target="f64", generated="SSA_F64.lean", module="Props.C03Gen", key="f64", namespace="C03Gen")
+    ctx.modelled.append(
+        "translator tie, f128: the generic bodies of f128.Int[T] Add Sub Mul Div Mod Neg Abs Cmp Equal GreaterThan(OrEqual) "
+        "LessThan(OrEqual) Trunc Ceil Round Min Max Inc Dec, Multiplier, multiplier, Maximum, Minimum, MaxDecimalDigits, "
+        "MaxSafeMultiply are regenerated (Generated/SSA_F128.lean) on top of the regenerated num.Int128 definitions "
+        "(Generated/SSA_Num.lean, proved equal to the model of C01 in Props/C01Gen.lean); num.Int128.Div, which is "
+        "outside the translated fragment, is taken by the model function of C01 (GenNum.Int128_Div, specification "
+        "C01.idivMod_spec); Props/C03Gen128.lean proves every regenerated definition equal to Fixed.F128.* of the model")
+    gentie.run(ctx, target="f128", generated="SSA_F128.lean", module="Props.C03Gen128", key="f128",
+               namespace="C03Gen128", deps=[("num", "SSA_Num.lean", "c01gen.lock")])
     ctx.harness("./cmd/c03", overlay=OVERLAY)
     thm = ("C03.f64_mul_spec / f64_div_spec / f64_mod_spec / f64_trunc_spec / f64_ceil_spec / f64_round_spec / "
            "f64_from_int_exact / f64_as_int_exact (and the f128_ twins), f64_f128_agree, mul_rational … : the model "
